@@ -586,6 +586,7 @@ func c20More(p *load.Prog, r *oblig.Run) {
 			o.OK(fmt.Sprintf("%d return(s) inside the loop, all constant true", n))
 		}
 	}
+	c20TooOld(p, r)
 	cb := p.Method(load.PkgRoot, "FamilyNode", "childrenBornBeforeParentsWarnings")
 	ctor := p.Func(load.PkgRoot, "NewChildBornBeforeParentWarning")
 	if cb == nil || ctor == nil {
@@ -900,5 +901,78 @@ func c12More(p *load.Prog, r *oblig.Run) {
 		o.OK("both operands: " + a)
 	} else {
 		o.Fail("the two strings are prepared differently (" + a + " vs " + b + "): StringSimilarity(x, y) and StringSimilarity(y, x) can differ and a string need not be maximally similar to itself")
+	}
+}
+
+// c20TooOld (R20.f): the too-old warning is guarded by "a death is known" and
+// reports the age at death. Both must rest on the same death estimate: the value
+// whose presence the guard tests comes from a function that Age itself calls.
+func c20TooOld(p *load.Prog, r *oblig.Run) {
+	r.Rule("R20.f", "the too-old warning's 'death is known' test uses the death estimate the reported age is computed from", 1)
+	fn := p.Method(load.PkgRoot, "IndividualNode", "tooOldWarnings")
+	age := p.Method(load.PkgRoot, "IndividualNode", "Age")
+	ctor := p.Func(load.PkgRoot, "NewIndividualTooOldWarning")
+	o := r.Add("R20.f", "guard of the too-old warning", "-", "death test in tooOldWarnings")
+	if fn == nil || age == nil || ctor == nil {
+		o.Unknown("tooOldWarnings / Age / NewIndividualTooOldWarning not found")
+		return
+	}
+	o.Pos = p.Pos(fn.Pos())
+	sites := su.CallsTo(fn, ctor)
+	if len(sites) == 0 || len(su.CallsTo(fn, age)) == 0 {
+		o.Unknown("tooOldWarnings no longer builds the warning from Age()")
+		return
+	}
+	ageCallees := map[*ssa.Function]bool{}
+	for _, c := range su.Calls(age) {
+		if cal := c.Common().StaticCallee(); cal != nil {
+			ageCallees[cal] = true
+		}
+	}
+	// nil tests that dominate the warning (true edge of x != nil)
+	var tested []*ssa.Function
+	unknownTest := ""
+	for _, b := range fn.Blocks {
+		iff, ok := b.Instrs[len(b.Instrs)-1].(*ssa.If)
+		if !ok {
+			continue
+		}
+		bo, ok := iff.Cond.(*ssa.BinOp)
+		if !ok || bo.Op != token.NEQ {
+			continue
+		}
+		k, isK := bo.Y.(*ssa.Const)
+		if !isK || k.Value != nil {
+			continue
+		}
+		if _, isPtr := bo.X.Type().Underlying().(*types.Pointer); !isPtr {
+			continue
+		}
+		if !(len(b.Succs[0].Preds) == 1 && b.Succs[0].Dominates(sites[0].Block())) {
+			continue
+		}
+		v := bo.X
+		if ex, isEx := v.(*ssa.Extract); isEx {
+			v = ex.Tuple
+		}
+		if c, isCall := v.(*ssa.Call); isCall && c.Call.StaticCallee() != nil {
+			tested = append(tested, c.Call.StaticCallee())
+		} else {
+			unknownTest = v.String()
+		}
+	}
+	switch {
+	case len(tested) == 0 && unknownTest == "":
+		o.Fail("the too-old warning is no longer guarded by a 'death is known' test: living people older than the limit are reported")
+	case len(tested) == 0:
+		o.Unknown("the guard tests " + unknownTest + ", which is not the result of a call")
+	default:
+		for _, t := range tested {
+			if !ageCallees[t] {
+				o.Fail("the guard tests " + load.FuncName(t) + ", but the age it reports (Age) is computed from other estimates (" + load.FuncName(age) + " does not call it): a person whose death is only known through the other estimate (e.g. a burial without a death event) is aged correctly and yet never reported - or reported without being dead")
+				return
+			}
+		}
+		o.OK("the guard tests the result of " + load.FuncName(tested[0]) + ", which Age computes the age from")
 	}
 }
